@@ -271,6 +271,16 @@ class SolEval:
                 if name == "hyp2f1":
                     return self.fn_atom("hyp2f1", args)
                 if name == "einsum":
+                    spec = args[0] if args and isinstance(args[0], str) else ""
+                    m = re.fullmatch(r"(\w)\.\.\.,(\w)\.\.\.->(\w)(\w)\.\.\.",
+                                     spec.replace(" ", ""))
+                    if m and len(args) == 3 and isinstance(args[1], list) \
+                            and isinstance(args[2], list) and {m.group(3), m.group(4)} == \
+                            {m.group(1), m.group(2)} and m.group(1) != m.group(2):
+                        u, v = args[1], args[2]
+                        if m.group(3) == m.group(1):
+                            return [[asP(x) * asP(y) for y in v] for x in u]
+                        return [[asP(x) * asP(y) for x in u] for y in v]
                     raise Unsup("einsum")
                 return self.fn_atom(name, args)
         raise Unsup("call " + fsrc)
@@ -499,6 +509,214 @@ def k_from_metric(rep):
         raise AnalysisError(f"K-from-metric: only {n} modules decided")
 
 
+# ---------------------------------------------------------------------------------------------
+# scaling weights (dimensional homogeneity): a type system over the closed forms
+# ---------------------------------------------------------------------------------------------
+class Inhomogeneous(Exception):
+    pass
+
+
+TRANSCENDENTAL = {"exp", "sin", "cos", "tan", "sinh", "cosh", "tanh", "log", "arcsin", "arccos",
+                  "arctan", "hyp2f1"}
+
+# module -> weights of its symbolic constants (length = 1).  Constants not listed keep their
+# numerical value.  One line of reason each.
+SCALING = {
+    "Schwarzschild_isotropic": {"M": 1},        # the mass is a length (G = c = 1)
+    "Rosquist_Jantzen": {"s": 0, "q": 0, "k": 0, "m": 0},   # pure numbers fixed by gamma
+    "Collins_Stewart": {},                      # exponents are exact rationals of gamma
+    "Harvey_Tsoubelis": {},
+    "Conformally_flat": {"eps": -2},            # Omega = 1 + eps x^2 is a pure number
+}
+# expected weight of what a function returns: number, or a rule name
+EXPECTED = {"rho": -2, "press": -2, "Kretschmann": -4, "null_ray_exp_out": -1,
+            "null_ray_exp_in": -1, "st_RicciS": -2, "alpha": "lapse",
+            "gammadown3": "metric3", "gdown4": "metric4", "Kdown3": "K", "Tdown4": "T"}
+
+
+def weight_of(p, w):
+    """scaling weight (a P, linear in the symbolic exponents) of a homogeneous polynomial;
+    None for the zero polynomial; raises Inhomogeneous"""
+    from .. import tpoly
+    p = asP(p)
+    if p.is_zero():
+        return None
+    seen = None
+    for mono in p.t:
+        tot = P()
+        for atom, e in mono:
+            tot = tot + atom_weight(atom, w).scale(e)
+        if seen is None:
+            seen = tot
+        elif seen != tot:
+            raise Inhomogeneous(f"terms of weight {seen!r} and {tot!r} are added")
+    return seen
+
+
+def atom_weight(atom, w):
+    from .. import tpoly
+    if atom in w:
+        return asP(w[atom])
+    if atom.startswith("#") or atom in ("pi", "I"):
+        return P()
+    if atom in symdiff.REG:
+        r = symdiff.REG[atom]
+        if r[0] == "fn":
+            if r[1] in TRANSCENDENTAL:
+                for a in r[2]:
+                    wa = weight_of(a, w)
+                    if wa is not None and not wa.is_zero():
+                        raise Inhomogeneous(f"{r[1]}() of a quantity of weight {wa!r}")
+                return P()
+            ws = [weight_of(a, w) for a in r[2]]
+            ws = [x for x in ws if x is not None]
+            return ws[0] if ws else P()        # abs, sign, ...: weight of the argument
+        if r[0] == "pow":
+            wb = weight_of(r[1], w)
+            return P() if wb is None else wb * r[2]
+    if atom in tpoly.OPAQUE:
+        wb = weight_of(tpoly.OPAQUE[atom], w)
+        return P() if wb is None else wb
+    return P()          # an unlisted plain atom: a pure number
+
+
+def scaling(rep):
+    """Scaling weights as a type system.  With lengths of weight 1 (G = c = 1) the line element
+    has weight 2, so a metric component g_ab has weight 2 - d_a - d_b where d_a is the weight
+    of the coordinate x^a; then K_ab has 1 - d_a - d_b, T_ab (= G_ab / kappa) has -d_a - d_b,
+    densities and the Ricci scalar -2, the Kretschmann scalar -4, expansions -1.  The
+    coordinate weights are *inferred* from the module's own metric (0 for a coordinate inside
+    exp/sin, otherwise from the diagonal entry), everything else is checked against them.
+    A closed form with a power of t, r or M slipped is ill-typed; a consistent formula is
+    well-typed whatever its spelling.  Modules whose closed forms contain dimensionful
+    numbers are not typable and are listed as such."""
+    S = rep.sources
+    n_ok = 0
+    for mod, consts in SCALING.items():
+        rel = f"{SOL}/{mod}.py"
+        ev = SolEval(S, rel, False)
+        for c in consts:
+            if c not in ev.consts:
+                raise AnalysisError(f"{rel}: constant `{c}` of the scaling table not found")
+            ev._cval[c] = P.atom(c)
+        coords = ["t", "x", "y", "z"]
+        C = [P.atom(c) for c in coords]
+
+        def value(fname):
+            fn = ev.fns[fname]
+            params = [a.arg for a in fn.args.args if a.arg != "analytical"]
+            args = [P.atom(p_) for p_ in params]
+            r = ev.call(fname, args, {"analytical": False} if any(
+                a.arg == "analytical" for a in fn.args.args) else {})
+            return r[1] if r else None
+        # ---- metric and coordinate weights
+        try:
+            g3 = value("gammadown3")
+            al = value("alpha") if "alpha" in ev.fns else P.const(1)
+        except Unsup as e:
+            rep.unverified("scaling", f"{rel}::metric", "not interpreted: " + str(e))
+            continue
+        base_w = dict(consts)
+        inside = set()          # coordinates inside a transcendental function
+        for _k, v in flatten(g3):
+            for atom in asP(v).atoms():
+                r = symdiff.REG.get(atom)
+                if r and r[0] == "fn" and r[1] in TRANSCENDENTAL:
+                    for a in r[2]:
+                        inside |= asP(a).atoms() & set(coords)
+        found = None
+        import itertools
+        for combo in itertools.product(("D", 1, 0), repeat=3):
+            w = dict(base_w)
+            w["t"] = 1
+            unresolved = []
+            for c, choice in zip("xyz", combo):
+                if c in inside and choice != 0:
+                    break
+                if choice == "D":
+                    unresolved.append(c)
+                else:
+                    w[c] = choice
+            else:
+                try:
+                    progress = True
+                    while unresolved and progress:
+                        progress = False
+                        for c in list(unresolved):
+                            i = "xyz".index(c)
+                            gcc = asP(g3[i][i])
+                            if gcc.atoms() & set(unresolved):
+                                continue
+                            wg = weight_of(gcc, w)
+                            if wg is None:
+                                break
+                            w[c] = (P.const(2) - wg).scale(Fraction(1, 2))
+                            unresolved.remove(c)
+                            progress = True
+                    if unresolved:
+                        continue
+                    ok = True
+                    for i, a in enumerate("xyz"):
+                        for j, b in enumerate("xyz"):
+                            wg = weight_of(g3[i][j], w)
+                            if wg is not None and wg != P.const(2) - asP(w[a]) - asP(w[b]):
+                                ok = False
+                    wa = weight_of(al, w)
+                    if ok and (wa is None or wa.is_zero()):
+                        found = w
+                        break
+                except Inhomogeneous:
+                    continue
+        if found is None:
+            rep.unverified("scaling", f"{rel}::metric",
+                           "no assignment of coordinate weights makes the metric homogeneous "
+                           "(closed forms with dimensionful numbers): not typable")
+            continue
+        w = found
+        d = {"t": P.const(1), "x": asP(w["x"]), "y": asP(w["y"]), "z": asP(w["z"])}
+        rep.ok("scaling", f"{rel}::metric", detail={"coordinate_weights": {k: repr(v) for k, v
+                                                                            in d.items()}})
+        n_ok += 1
+        # ---- everything else against the inferred weights
+        for fname, exp in EXPECTED.items():
+            if fname not in ev.fns or fname in ("gammadown3", "alpha"):
+                continue
+            key = f"{rel}::{fname}"
+            try:
+                v = value(fname)
+            except Unsup as e:
+                rep.unverified("scaling", key, "not interpreted: " + str(e))
+                continue
+            bad = []
+            try:
+                if isinstance(exp, int):
+                    ws = weight_of(v, w) if not isinstance(v, list) else None
+                    if isinstance(v, list):
+                        raise Unsup("array where a scalar was expected")
+                    if ws is not None and ws != P.const(exp):
+                        bad.append(f"weight {ws!r}, expected {exp}")
+                else:
+                    names = "txyz" if exp in ("metric4", "T") else "xyz"
+                    off = {"metric3": 2, "metric4": 2, "K": 1, "T": 0}[exp]
+                    for i, a in enumerate(names):
+                        for j, b in enumerate(names):
+                            ws = weight_of(v[i][j], w)
+                            want = P.const(off) - d[a] - d[b]
+                            if ws is not None and ws != want:
+                                bad.append(f"[{a}{b}] has weight {ws!r}, expected {want!r}")
+            except Inhomogeneous as e:
+                bad.append(str(e))
+            except Unsup as e:
+                rep.unverified("scaling", key, "not interpreted: " + str(e))
+                continue
+            rep.check(not bad, "scaling", key,
+                      f"{fname} is not homogeneous of the weight its role requires (lengths 1, "
+                      f"coordinates {dict((k, repr(x)) for k, x in d.items())}): "
+                      + "; ".join(bad[:3]), node=ev.fns[fname], file=rel)
+    if n_ok < 3:
+        raise AnalysisError(f"scaling: only {n_ok} modules typable")
+
+
 def run(rep):
     rep.explanation = (
         "Clause 1 of C17 (the numerical and the symbolic form of each bundled metric agree) is "
@@ -513,5 +731,6 @@ def run(rep):
     component_axes(rep)
     static_k(rep)
     k_from_metric(rep)
+    scaling(rep)
     rep.floor("two-forms-agree", 12)
     rep.floor("component-axes", 12)
